@@ -348,11 +348,8 @@ theorem select_results_from_input (sp : Nat → Bool) (srcLen : Nat) (ers : List
     (h : selectCandidates sp srcLen ers flags = some out) : ∀ r ∈ out, r ∈ ers :=
   selectCandidates_mem sp srcLen ers flags out h
 
-/- Natural statement "`_select_candidates` always returns" is FALSE of the code: `total_candidate` is the number of
-   results the loop produced (`len(unit_is_prefix)`), but `ers` has been through `_filter_ambiguity` by then. -/
-
-/-- … it returns whenever the filters removed nothing the loop produced (`|flags| ≤ |ers|`) and the last candidate ends
-inside the string … -/
+/-- `_select_candidates` returns whenever it gets at most as many flags as results (`|flags| ≤ |ers|`) and every
+candidate ends inside the string (since fix e3a14a2db `extract` guarantees the first: `extractPre_lockstep_returns`). -/
 theorem select_returns_partial (sp : Nat → Bool) (srcLen : Nat) (ers : List ER) (flags : List Bool)
     (hlen : flags.length ≤ ers.length)
     (hin : ∀ r ∈ ers, erEnd r ≤ (srcLen : Int)) :
@@ -394,15 +391,18 @@ theorem select_returns_partial (sp : Nat → Bool) (srcLen : Nat) (ers : List ER
     | none => rw [h] at hs; simp at hs
     | some suf => simp only; split <;> rfl
 
-/-- … and raises `IndexError` otherwise. Witness (shape of `model 5usd3 costs 7 dollars`, English currency: the loop
-produced two results, the ambiguity filter removed the first): two flags, one remaining result. -/
+/-- **Regression theorem** for the code before fix e3a14a2db, which passed the loop's `unit_is_prefix` unfiltered although
+`ers` had been through `_filter_ambiguity`: `_select_candidates` then indexes past the end (`IndexError`, swallowed by the
+model's `parse`: `recognize_currency('model 5usd3 costs 7 dollars')` returned `[]`). Witness of that shape: the loop
+produced two results, the ambiguity filter removed the first — two flags, one remaining result. -/
 theorem select_misaligned_raises :
     selectCandidates (fun ch => ch == 32) 27 [⟨18, 9, [55, 32, 100, 111, 108, 108, 97, 114, 115], some ⟨0, 1, [55]⟩⟩]
       [false, false] = none := by
   decide
 
-/-- **Repaired variant** (findings/nwu/select-candidates-misaligned.diff; `Inputs.lockstep`, probed by the check on the
-working tree): with `unit_is_prefix` filtered together with the results `extract` always returns for well-formed
+/-- **Current code** (fix e3a14a2db = findings/nwu/select-candidates-misaligned.diff; `Inputs.lockstep = true`, probed by
+the check on the working tree — a revert is reported): with `unit_is_prefix` filtered together with the results `extract`
+always returns for well-formed
 inputs: `_select_candidates` gets at most as many flags as results, and every result ends inside the string. -/
 theorem extractPre_lockstep_returns (c : Cfg) (i : Inputs) (h : WF c i) (hl : i.lockstep = true) :
     (extractPre c i).isSome = true := by
